@@ -13,6 +13,7 @@ _events = []
 _lock = threading.Lock()
 _installed = False
 _scratch_prefixes = []
+_real_urlopen = None
 
 
 class NetworkBlocked(OSError):
@@ -40,6 +41,12 @@ def _audit(event, args):
 
 
 def blocked_urlopen(url, *a, **k):
+    u = str(getattr(url, "full_url", url))
+    if u.startswith("file://"):
+        # local files (CLI --base-uri fixtures): let the real urlopen read them
+        with _lock:
+            _events.append({"event": "urlopen-file", "args": u[:200]})
+        return _real_urlopen(url, *a, **k)
     with _lock:
         _events.append({"event": "urlopen", "args": str(getattr(url, "full_url", url))[:200]})
     raise NetworkBlocked("verif tripwire: urlopen(%r) blocked" % (url,))
@@ -57,6 +64,8 @@ def install():
     allow_writes_under(tempfile.gettempdir())
     sys.addaudithook(_audit)
     import jsonschema.validators as v
+    global _real_urlopen
+    _real_urlopen = v.urlopen
     v.urlopen = blocked_urlopen
     # make sure `requests` can never be picked up
     sys.modules.setdefault("requests", None)
